@@ -8,7 +8,7 @@ Import ListNotations.
 Local Open Scope string_scope.
 
 Inductive kclass := KAccept | KReject | KSeq | KSeqNull | KFail.
-Inductive guess_mode := GNone | GInit | GOther | GBadJson | GNonConforming.
+Inductive guess_mode := GNone | GInit | GOther | GBigKey | GBadJson | GNonConforming.
 Record child := mkChild { ch_name : string; ch_user_args : list string; ch_json : option json; ch_seed : string }.
 
 Record cli_obs := mkCliObs {
@@ -19,7 +19,7 @@ Record cli_obs := mkCliObs {
   c_sentinel_ok : option bool; c_rows : list (N * N * json * option f64); c_rows_ok : bool;
   c_bestfile : option json; c_summary : option (f64 * N * N); c_survivors : nat; c_panicked : bool;
   c_timed_out : bool; c_verbose_same : bool; c_has_failed_stdout : bool;
-  c_wall_ms : N; c_limit_ms : option N; c_all_fast_ok : bool; c_guess_json : option json }.
+  c_wall_ms : N; c_limit_ms : option N; c_all_fast_ok : bool; c_guess_json : option json; c_failed_to_reap : bool }.
 
 (** the spec files of tools/clistream.py *)
 Definition cli_spec (i : nat) : spec :=
@@ -170,7 +170,7 @@ Definition mon_C11 (o : cli_obs) : bool :=
   negb (c_panicked o) && negb (c_timed_out o) &&
   match c_guess o with
   | GNone => true
-  | GInit | GOther => Nat.ltb 0 (n_started o) || N.eqb (c_n o) 0
+  | GInit | GOther | GBigKey => Nat.ltb 0 (n_started o) || N.eqb (c_n o) 0
   | GBadJson | GNonConforming => negb (exit_zero o) && Nat.eqb (n_started o) 0 && Nat.eqb (c_stdout_lines o) 0
   end.
 
@@ -192,7 +192,19 @@ Definition mon_C08 (o : cli_obs) : bool :=
   end.
 
 (** ** C07 *)
-Definition mon_C07 (o : cli_obs) : bool := negb (c_timed_out o) && Nat.eqb (c_survivors o) 0.
+(** no survivor; and an evaluation over its time limit is rejected and the run goes on: with a
+    per-evaluation limit, no target, no time limit for the run, only accepted/rejected scripted
+    results and a fast accepted one among the started evaluations, the run ends with a report *)
+Definition continues_after_timeout (o : cli_obs) : bool :=
+  negb (c_has_kill_after o) || c_has_terminate_after o || opt_is (c_target o) || pre_error o || opt_is (c_invalid o) ||
+  negb (N.eqb (ss_of o) 1) ||
+  any_class o (fun k => match k with KFail | KSeq | KSeqNull => true | _ => false end) ||
+  negb (existsb (fun k => match beh_at o k with (KAccept, false) => true | _ => false end) (seq 0 (n_started o))) ||
+  exit_zero o.
+Definition mon_C07 (o : cli_obs) : bool :=
+  negb (c_timed_out o) && Nat.eqb (c_survivors o) 0 && continues_after_timeout o &&
+  (* a run ended by its time limit with evaluations in flight does not turn into a failure to reap them *)
+  negb (c_failed_to_reap o).
 
 (** ** C15 *)
 Definition mon_C15 (o : cli_obs) : bool := negb (c_panicked o) && negb (c_timed_out o) && c_verbose_same o.
